@@ -4,4 +4,5 @@ import Driver.Credit
 import Driver.RecvCredit
 import Driver.Frame
 import Driver.Codec
+import Driver.Reasm
 import Driver.Main
